@@ -51,6 +51,22 @@ pub fn run_case(case: &Value) -> (Vec<F>, String) {
             );
             let _ = done;
             let deadline = Duration::from_secs(10 + 2 * cycles as u64);
+            // unrelated traffic (one frame every 150 ms, also in the other context) must not keep
+            // the restart from happening
+            let stop_traffic = std::sync::Arc::new(std::sync::atomic::AtomicBool::new(false));
+            let traffic = if case["traffic"].as_bool().unwrap_or(false) {
+                let (store, stop, other) = (w.store.clone(), stop_traffic.clone(), if ctx == w.ctx_a { w.ctx_b } else { w.ctx_a });
+                Some(std::thread::spawn(move || {
+                    let mut k = 0;
+                    while !stop.load(std::sync::atomic::Ordering::SeqCst) {
+                        let _ = store.append(Frame::builder("traffic", if k % 2 == 0 { ctx } else { other }).build());
+                        k += 1;
+                        std::thread::sleep(Duration::from_millis(150));
+                    }
+                }))
+            } else {
+                None
+            };
             loop {
                 let mine = of_spawn(&w.snapshot(), &sp.id.to_string(), "gen");
                 if mine.iter().filter(|f| f.topic == "gen.stop").count() >= cycles && mine.len() >= per * cycles {
@@ -61,6 +77,10 @@ pub fn run_case(case: &Value) -> (Vec<F>, String) {
                     break;
                 }
                 std::thread::sleep(Duration::from_millis(5));
+            }
+            stop_traffic.store(true, std::sync::atomic::Ordering::SeqCst);
+            if let Some(t) = traffic {
+                let _ = t.join();
             }
             let mine = of_spawn(&w.snapshot(), &sp.id.to_string(), "gen");
             let mut want_topics = vec![];
@@ -342,6 +362,8 @@ pub fn cases(thorough: bool) -> Vec<Value> {
             v.push(json!({"kind": "lifecycle", "expr": e, "ctx": ctx, "cycles": if thorough || e == 2 { 2 } else { 1 }}));
         }
     }
+    v.push(json!({"kind": "lifecycle", "expr": 2, "ctx": 0, "cycles": 3, "traffic": true}));
+    v.push(json!({"kind": "lifecycle", "expr": 1, "ctx": 1, "cycles": 2, "traffic": true}));
     v.push(json!({"kind": "errors"}));
     v.push(json!({"kind": "duplex-restart"}));
     for sizes in [vec![4usize << 20, 1, 2, 3], vec![1, 4 << 20, 2, 3], vec![70000, 8192, 1, 8193]] {
